@@ -214,6 +214,26 @@ def families(tier, seed):
     return fams
 
 
+def _twin_cone_apex():
+    """mutant: Cone puts its apex at centre - height"""
+    import sys as _sys
+    ph = _sys.modules['Geometry3D.geometry.polyhedron']
+    orig = ConvexPolyhedron.Cone.__func__
+
+    def cone(cls, circle_center, radius, height_vector, n=10):
+        import copy
+        body = orig(cls, circle_center, radius, height_vector, n)
+        return orig(cls, copy.deepcopy(circle_center).move(height_vector), radius, height_vector * -1, n) if False else orig(cls, circle_center, radius, height_vector * -1, n)
+    ph.ConvexPolyhedron.Cone = classmethod(cone)
+    ph.Cone = ph.ConvexPolyhedron.Cone
+    import checks.c14 as me
+    me.Cone = ph.ConvexPolyhedron.Cone
+    G.Cone = ph.ConvexPolyhedron.Cone
+
+
+TWINS = {'Cone apex at centre - height': (r'^cone/\+z/n4$', _twin_cone_apex)}
+
+
 META = dict(
     title='shape builders',
     level_text=('Bounded symbolic model checking of the real Parallelogram, Parallelepiped, Circle, Cylinder, Cone and Sphere builders: centre / base point '
